@@ -415,7 +415,12 @@ class AutoSerialize:
             group.attrs[name] = value
         elif hasattr(value, "dtype") and hasattr(value, "item"):
             # Handle numpy scalar types (np.float32, np.int64, etc.)
-            group.attrs[name] = value.item()
+            item = value.item()
+            if isinstance(item, (int, float, str, bool)):
+                group.attrs[name] = item
+            else:
+                # complex / datetime scalars are not JSON values: keep them as 0-dimensional arrays
+                self._write_ndarray(group, name, np.asarray(value), compressors)
         elif hasattr(value, "__fspath__") or str(type(value)).startswith("<class 'pathlib."):
             # Handle pathlib.Path objects and other path-like objects
             group.attrs[name] = str(value)
